@@ -2,6 +2,7 @@
 argv[2], calls the real conversion functions of the build in argv[1] and appends one JSON event per line to argv[3]
 (flushed), so that the controller knows which input took the process down if native code dies on one."""
 import json
+import os
 import sys
 
 
@@ -12,6 +13,41 @@ def main():
     from harness.drivers import timeconv_drv as tc
 
     cv = tc.Conv(stage)
+    if len(sys.argv) > 6 and sys.argv[6] == "bg":
+        # a recording goes on in another thread of the process while the conversions are asked for
+        import shutil
+        import tempfile
+        import threading
+
+        import numpy as np
+
+        tmp = tempfile.mkdtemp(prefix="c03bg", dir=os.path.dirname(fout))
+        stop = threading.Event()
+
+        def record():
+            k = 0
+            while not stop.is_set():
+                d = os.path.join(tmp, "ch%d" % (k % 4))
+                shutil.rmtree(d, ignore_errors=True)
+                os.makedirs(d)
+                # a continuous channel fed with packets of short blocks: one call hands over a thousand blocks, each of which
+                # makes the writer work out the subdirectory and file of its first sample
+                w = cv.drf.DigitalRFWriter(d, np.int16, 3600, 1000, (1500000000 + 7919 * k) * 1000, 1000, 1, "bg", is_complex=False,
+                                           is_continuous=True, marching_periods=False)
+                nblk, blen = 1000, 4
+                data = np.arange(nblk * blen, dtype=np.int16)
+                starts = np.arange(0, nblk * blen, blen, dtype=np.uint64)
+                pos = 0
+                for _ in range(60):
+                    if stop.is_set():
+                        break
+                    w.rf_write_blocks(data, starts + np.uint64(pos), starts)
+                    pos += nblk * blen
+                w.close()
+                k += 1
+
+        th = threading.Thread(target=record, daemon=True)
+        th.start()
     with open(fin) as fi, open(fout, "a") as fo:
         for i, line in enumerate(fi):
             if i < skip:
